@@ -60,8 +60,11 @@ func shapeRec(sb *strings.Builder, n *bptree.VerifNode, id bool) {
 			sb.Write(n.Keys[i-1])
 			sb.WriteByte('|')
 		}
-		if id && n.ChildInMem[i] {
-			sb.WriteByte('m')
+		if id {
+			if n.ChildInMem[i] {
+				sb.WriteByte('m')
+			}
+			fmt.Fprintf(sb, "#%d", n.ChildSizes[i]) // the size the parent caches for this child (by-index routing depends on it)
 		}
 		shapeRec(sb, c, id)
 	}
